@@ -153,6 +153,26 @@ def offset_params(S, fn, known):
     return out
 
 
+def rule_noexcept(rep, S, R="C02.exc"):
+    """a member that reports an error by throwing (it contains a check, or calls a member that does) cannot be noexcept: the exception the throwing policy
+    raises for a bad position / an overlong result would end in std::terminate instead of reaching the caller"""
+    d = S.d
+    mt = may_throw_summary(S)
+    n = 0
+    for fn in S.fns:
+        q = (fn.get("type") or {}).get("qualType", "")
+        if "noexcept" not in q.split(")")[-1]:
+            continue
+        n += 1
+        lab = "%s::%s" % (S.tag, S.label(fn))
+        if mt.get(fn.get("id")):
+            rep.violates(R, lab, "a throwing member is not noexcept", where=d.where(fn),
+                         detail="declared noexcept but it checks a position or a length (directly or through a member it calls): under the throwing policy the "
+                                "out_of_range / length_error becomes std::terminate")
+    if n:
+        rep.holds(R, "%s: noexcept members" % S.tag, "a throwing member is not noexcept", detail="%d noexcept members, none of them can raise" % n, nontrivial=False)
+
+
 def rule_cbe_free(rep, S, d, R="C02.cbe"):
     """non-member functions that change a string passed by reference (operator>>): every member they call keeps the strong guarantee for itself, so the
     function keeps it exactly if no member that may throw is called after a member that has modified the string"""
@@ -809,6 +829,7 @@ def run(tier):
         rule_pos(rep, S)
         rule_pub(rep, S)
         rule_exc(rep, S, d)
+        rule_noexcept(rep, S)
         from .c01 import rule_len
         rule_len(rep, S, "C02.len")
         rule_extent(rep, S, caps[tag])
